@@ -39,7 +39,9 @@ def make_schema(r):
             Opt('intl', b'il', 0, r.pick([None, b'{1, 2}'])), Opt('strl', b'sl', 0, r.pick([None, b'{a}'])),
             Opt('booll', b'bl', 0, None), Opt('fltl', b'fl', 0, b'{0.5}'),
             Opt('sec', b'sec', 0, None, sub), Opt('sec', b'm', F['MULTI'], None, sub),
-            Opt('sec', b't', F['MULTI'] | F['TITLE'], None, sub), Opt('sec', b'kv', F['KEYSTRVAL'], None, [])]
+            Opt('sec', b't', F['MULTI'] | F['TITLE'], None, sub), Opt('sec', b'kv', F['KEYSTRVAL'], None, []),
+            # a titled section that is not multi exists from cfg_init on, without a title
+            Opt('sec', b'ts', F['TITLE'], None, [Opt('int', b'a', 0, 1), Opt('sec', b'tt', F['TITLE'], None, [Opt('str', b'ws', 0, None)])])]
 
 
 def rand_state_text(r):
@@ -72,7 +74,7 @@ def rand_state_text(r):
 def rand_setters(r):
     out = []
     for _ in range(r.below(5)):
-        c = r.below(7)
+        c = r.below(8)
         s = rand_str(r)
         if c == 0:
             out.append('setstr 0 %s %s 0' % (hx(b's'), hx(s) if b'\0' not in s else hx(b'x')))
@@ -85,7 +87,11 @@ def rand_setters(r):
         elif c == 4:
             out.append('setlist 0 %s int' % hx(b'il'))
         elif c == 5:
-            out.append('setfloat 0 %s %s 0' % (hx(b'f'), struct.pack('>d', r.pick([1e300, -1e-300, 0.1, 2.0 ** 52, 1 / 3])).hex()))
+            out.append('setfloat 0 %s %s 0' % (hx(b'f'), struct.pack('>d', r.pick([1e300, -1e-300, 0.1, 2.0 ** 52, 1 / 3, float('inf'), float('-inf'), 1.7976931348623157e308, 5e-324])).hex()))
+        elif c == 6 and r.chance(1, 2):
+            out.append('addlist 0 %s float %s' % (hx(b'fl'), struct.pack('>d', r.pick([float('inf'), float('-inf'), 2.5])).hex()))
+        elif c == 6:
+            out.append('parse_buf 0 ' + hx(b'ts ' + q(s) + b' { a = 4 tt ' + q(rand_str(r)) + b' { } }\n'))
         else:
             out.append('setbool 0 %s %d 0' % (hx(b'b'), r.below(2)))
     return out
